@@ -15,6 +15,8 @@ open Acra.Py Acra.Model.Search Acra.Spec Acra.Lemmas.KMP
 theorem KMP_search_eq_occ (t p : Bytes) (hp : p ≠ []) :
     kmpSearch t p = .ok ((occ t p).map Int.ofNat) := kmpSearch_eq_occ t p hp
 
+example : ([97, 98, 97] : Bytes) ≠ [] := by decide
+
 /-- the docstring-style example with overlapping occurrences: `aba` in `ababbababa` -/
 example : kmpSearch [97, 98, 97, 98, 98, 97, 98, 97, 98, 97] [97, 98, 97] = .ok [0, 5, 7] := by rfl
 
